@@ -435,6 +435,8 @@ def history(rng: random.Random, profile: Optional[Profile] = None, asset: str = 
                 if rng.random() < p.p_inconsistent_fiat:
                     value = value * Decimal("1.1") + Decimal("0.01")
                 row["ffee"] = dstr(_limit_sig(value, p.max_sig_digits))
+            elif cfee > 0 and p.allow_in_crypto_fee and rng.random() < 0.06:
+                row["ffee"] = "0"  # the exchange reported the fee's value as 0.00: an explicit zero is a supplied value
             sim.debit(account, cout + cfee)
             rows.append(row)
         else:
